@@ -27,7 +27,12 @@ PROPS = {
     "C04": P([TIE], TIE_T, ["S2", "S3", "S4", "S7", "S8", "S9", "S10"]),
     "C05": P([TIE], TIE_T + BLOOM_T, ["S1-S7", "S9"]),
     "C06": P([TIE], TIE_T, ["S2", "S4", "S10"]),
-    "C07": P([TIE], TIE_T, ["S2", "S3", "S10"]),
+    "C07": P(["SstModel.Props.C07", TIE],
+             ["Sst.C07_nothing_unverified", "Sst.C07_crc_burst", "Sst.C07_altered_block_rejected",
+              "Sst.C07_altered_checksum_rejected", "Sst.C07_mask_roundtrip"] + TIE_T,
+             ["S2 codec (mask/unmask, fixed32)", "S3 crc: crc crate CRC_32_ISCSI vs bitwise model",
+              "S10 table sessions on altered images (every offset x masks, range fills) vs model, judged against the independent decoder"],
+             partial="block level proved (checksum layer); table-level right-or-error theorem pending"),
     "C08": P([TIE], TIE_T, ["S2", "S6", "S7", "S8", "S10"]),
     "C09": P(["SstModel.Props.C09", TIE],
              ["Sst.C09_bloom", "Sst.C09_filter_block", "Sst.C09_bloom_filter_block", "Sst.C09_nofilter",
@@ -38,12 +43,32 @@ PROPS = {
              assume=["f32 product bits_per_key*0.69 is modelled as floor(bits*69/100); compared with the crate for bits 0..64 and samples (S5)",
                      "theorem hypotheses: bit array < 512 MiB (FitsU32), filter block < 2^32 (resp. 2^29) bytes"]),
     "C10": P([TIE], TIE_T, ["S10", "S11"]),
-    "C11": P([TIE], [], ["S11"]),
+    "C11": P(["SstModel.Props.C11"],
+             ["Sst.HCache.C11_refines", "Sst.HCache.C11_step", "Sst.HCache.C11_spec_invariant"],
+             ["S11 cache: Cache::{insert,get,remove,count} + verif_dump (forward order, backward links, map keys) vs the heap model, judged against Spec.Lru"],
+             claimed=True,
+             assume=["the heap model (node ids, liveness-checked dereference, Box ownership = owning `next`) stands for Rust's raw-pointer list; real memory safety of the compiled unsafe code is supported, not decided, by this (the address of the list head must be stable: the cache lives in an Arc<RwLock<_>>)",
+                     "HashMap is modelled as an association list with unique keys"]),
     "C12": P([TIE], TIE_T, ["S10", "S13"]),
-    "C13": P([TIE], TIE_T, ["S9"]),
+    "C13": P(["SstModel.Props.C13", TIE],
+             ["Sst.C13_sink_any_schedule", "Sst.C13_hard_error_not_ok", "Sst.C13_write_all",
+              "Sst.writeAll_prefix", "Sst.writeAll_no_diverge"] + TIE_T,
+             ["S9 tablebuilder: every sink call (buffer offered, response) and the result of TableBuilder on scheduled sinks vs Model.TableBuilder"],
+             claimed=True,
+             assume=["std::io::Write::write_all behaves as documented (retry on Interrupted, WriteZero on Ok(0)); modelled by Sink.writeAll",
+                     "the snappy compressor is a parameter of the model (any function); theorem hypothesis: reported size < 2^64"]),
     "C14": P([TIE], TIE_T, ["S10"]),
-    "C15": P([TIE], TIE_T, ["S9", "S10"]),
-    "C16": P([TIE], [], ["S7", "S9"]),
+    "C15": P(["SstModel.Props.C15", TIE],
+             ["Sst.open_rejects_without_magic", "Sst.C15_prefix_rejected", "Sst.C15_prefix_rejected_corruption"] + TIE_T,
+             ["S9 tablebuilder (images)", "S10 table: Table::new on every prefix length vs Model.Table.new"],
+             claimed=True,
+             assume=["theorem hypothesis NoInnerMagic: no strict prefix of length >= 48 ends with the 8 magic bytes (finding F1: a value embedding a complete table makes one prefix a valid table - inherent to the format); the harness evaluates it on every image it runs",
+                     "the clause 'the complete image opens with the full contents' is C01 (correspondence + judge here)"]),
+    "C16": P(["SstModel.Props.C16"],
+             ["Sst.C16_rejects", "Sst.C16_accepted_sorted", "Sst.C16_finished_sorted"],
+             ["S9 tablebuilder: TableBuilder::add on sequences with one order violation at every position x block sizes vs Model.TableBuilder"],
+             claimed=True,
+             assume=["no law is assumed about the comparator; 'refused' = panic at that call (the model's add has no error return for order violations, like the Rust assert)"]),
     "C17": P(["SstModel.Props.C17"],
              ["Sst.C17_sep", "Sst.C17_succ", "Sst.C17_succ_strict", "Sst.C17_bracket",
               "Sst.model_order_is_lex", "Sst.model_le_is_lex"],
